@@ -164,12 +164,49 @@ Layouts2 == { << <<1, 2>>, <<>>, <<3>> >>,                                   \* 
 Layouts3 == { << << <<1>>, <<>> >>, << <<2, 3>>, <<4>> >> >>, << <<>>, << <<5, 1>> >> >> }   \* depth 3
 LayoutCase(l, depth, regular, mapped) == [part |-> "layout", layout |-> l, depth |-> depth, regular |-> regular, mapped |-> mapped]
 
+\* ------------------------------------------------------------ broadcasting of two operands
+\* NumPy rule: shapes are right-aligned; two extents are compatible when they are equal or one of them is 1.
+\* A state gives, for every element of the result (row-major), the flat positions of the elements of a and b
+\* it is computed from - or says that the pairing must be refused.
+MaxI(a, b) == IF a > b THEN a ELSE b
+Pad(sh, n) == [k \in 1..n |-> IF k <= n - Len(sh) THEN 1 ELSE sh[k - (n - Len(sh))]]
+Compatible(sa, sb) == LET n == MaxI(Len(sa), Len(sb))  pa == Pad(sa, n)  pb == Pad(sb, n)
+                      IN  \A k \in 1..n : pa[k] = pb[k] \/ pa[k] = 1 \/ pb[k] = 1
+BShape(sa, sb) == LET n == MaxI(Len(sa), Len(sb))  pa == Pad(sa, n)  pb == Pad(sb, n)
+                  IN  [k \in 1..n |-> MaxI(pa[k], pb[k])]
+Unflat(q, sh) == [k \in 1..Len(sh) |-> (q \div Prod(SubSeq(sh, k + 1, Len(sh)))) % sh[k]]
+SrcPos(idx, p) == FlatPos([k \in 1..Len(p) |-> IF p[k] = 1 THEN 0 ELSE idx[k]], p)
+BCase(lib, sa, sb, ok, rshape, posa, posb) ==
+    [part |-> "broadcast", lib |-> lib, sa |-> sa, sb |-> sb, ok |-> ok, rshape |-> rshape, posa |-> posa, posb |-> posb]
+NpBroadcast(sa, sb) ==
+    IF Compatible(sa, sb)
+    THEN LET r == BShape(sa, sb)  n == Len(r)
+         IN  BCase("np", sa, sb, "T", r, [q \in 1..Prod(r) |-> SrcPos(Unflat(q - 1, r), Pad(sa, n))],
+                                         [q \in 1..Prod(r) |-> SrcPos(Unflat(q - 1, r), Pad(sb, n))])
+    ELSE BCase("np", sa, sb, "F", <<>>, <<>>, <<>>)
+BShapes == { <<3>>, <<1>>, <<2>>, <<2, 3>>, <<2, 1>>, <<1, 3>>, <<3, 1>>, <<2, 1, 3>>, <<1, 2, 1>> }
+\* Awkward rule for variable-length lists: a flat operand with one entry per list pairs entry i with every
+\* element of list i; two operands with the same list lengths pair element by element; different lengths are refused
+SumTo(cs, i) == LET f[k \in 0..Len(cs)] == IF k = 0 THEN 0 ELSE f[k - 1] + cs[k] IN f[i]
+ListOf(q, cs) == CHOOSE i \in 1..Len(cs) : SumTo(cs, i - 1) <= q /\ q < SumTo(cs, i)
+JagCounts == { <<2, 0, 3>>, <<1, 1>>, <<0, 0>>, <<3>>, <<1, 2, 0, 1>> }
+AkBroadcasts ==
+    { BCase("ak-jag-flat", cs, <<Len(cs)>>, "T", cs, RangeSeq(0, SumTo(cs, Len(cs))),
+            [q \in 1..SumTo(cs, Len(cs)) |-> ListOf(q - 1, cs) - 1]) : cs \in JagCounts }
+    \cup { BCase("ak-jag-jag", cs, cs, "T", cs, RangeSeq(0, SumTo(cs, Len(cs))), RangeSeq(0, SumTo(cs, Len(cs)))) : cs \in JagCounts }
+    \cup UNION { { BCase("ak-jag-jag", cs, ds, "F", <<>>, <<>>, <<>>) : ds \in { d \in JagCounts \cup { <<1, 2>>, <<2, 1, 2>> } : d # cs /\ Len(d) = Len(cs) } }
+                   : cs \in JagCounts }
+    \* (an outer length of 1 broadcasts like a NumPy extent of 1, so only longer outer lists are refused)
+    \cup { BCase("ak-jag-flat", cs, <<Len(cs) + 1>>, "F", <<>>, <<>>, <<>>) : cs \in { d \in JagCounts : Len(d) > 1 } }
+
 Init == \/ Part = "reduce" /\ (c \in ReduceNp1 \/ c \in ReduceNp2 \/ c \in ReduceAk \/ c \in ReduceAk3)
         \/ Part = "index" /\ c \in IndexCases
         \/ Part = "layout" /\ (\E l \in Layouts1 : c = LayoutCase(l, 1, "F", Map1(l)))
         \/ Part = "layout" /\ (\E l \in Layouts2 : c = LayoutCase(l, 2, "F", Map2(l)))
         \/ Part = "layout" /\ (\E l \in Layouts3 : c = LayoutCase(l, 3, "F", Map3(l)))
         \/ Part = "layout" /\ c = LayoutCase(<< <<1, 2>>, <<3, 4>> >>, 2, "T", Map2(<< <<1, 2>>, <<3, 4>> >>))
+        \/ Part = "broadcast" /\ (\E sa \in BShapes, sb \in BShapes : c = NpBroadcast(sa, sb))
+        \/ Part = "broadcast" /\ c \in AkBroadcasts
 Next == UNCHANGED c
 Spec == Init /\ [][Next]_c
 Emit == PrintT("@@ARR " \o ToJson([case |-> c, elems |-> Elems]))
@@ -185,5 +222,16 @@ RowsAndColumnsSumToTotal ==
     /\ \A r \in Ragged : \A n \in 2..4 :
           /\ SumVecs([i \in 1..Len(r) |-> IF r[i] = NullList THEN ZeroVec(n) ELSE SumSeq(r[i], n)], n) = SumSeq(Flatten2(r), n)
           /\ SumVecs([j \in 1..MaxLen(r) |-> SumSeq(Column(r, j), n)], n) = SumSeq(Flatten2(r), n)
+\* broadcasting is symmetric in its operands, never invents an element, and is the identity on an operand that
+\* already has the result's shape
+BroadcastSound ==
+    (Part = "broadcast" /\ c.ok = "T") =>
+        /\ Len(c.posa) = Len(c.posb)
+        /\ \A k \in 1..Len(c.posa) : c.posa[k] >= 0 /\ c.posb[k] >= 0
+        /\ c.lib = "np" => /\ Len(c.posa) = Prod(c.rshape)
+                            /\ \A k \in 1..Len(c.posa) : c.posa[k] < Prod(c.sa) /\ c.posb[k] < Prod(c.sb)
+                            /\ LET d == NpBroadcast(c.sb, c.sa) IN d.ok = "T" /\ d.rshape = c.rshape /\ d.posa = c.posb /\ d.posb = c.posa
+                            /\ (c.sa = c.rshape => c.posa = RangeSeq(0, Prod(c.rshape)))
+                            /\ (c.sb = c.rshape => c.posb = RangeSeq(0, Prod(c.rshape)))
 IndexInRange == Part = "index" => \A k \in 1..Len(c.positions) : c.positions[k] >= 0 /\ c.positions[k] < Prod(c.shape)
 =============================================================================
